@@ -782,4 +782,347 @@ theorem specCommaList_eq (s : List Char) :
   unfold specCommaList
   rw [pieces_eq, parseAll_eq]
 
+/-! ### the scanner, token by token -/
+
+/-- the model's scanner driven by the lexer's tokens instead of its own look-ahead -/
+def scanT : List Tok → ScanSt → Option (List BoF)
+  | [], st => scanEnd st
+  | .lbrace2 :: t, st => scanT t { st with part := '{' :: '{' :: st.part }
+  | .rbrace2 :: t, st => scanT t { st with part := '}' :: '}' :: st.part }
+  | .lbrace :: t, st =>
+    match scanStep '{' st with
+    | none => none
+    | some st' => scanT t st'
+  | .rbrace :: t, st =>
+    match scanStep '}' st with
+    | none => none
+    | some st' => scanT t st'
+  | .chr c :: t, st =>
+    match scanStep c st with
+    | none => none
+    | some st' => scanT t st'
+
+theorem scanT_tokOfChar (w : Char) (t : List Tok) (st : ScanSt) :
+    scanT (tokOfChar w :: t) st =
+      match scanStep w st with
+      | none => none
+      | some st' => scanT t st' := by
+  unfold tokOfChar
+  by_cases h1 : w = '{'
+  · subst h1; rfl
+  · by_cases h2 : w = '}'
+    · subst h2; rfl
+    · rw [if_neg h1, if_neg h2]; rfl
+
+/-- the look-ahead of `scan` is the maximal munch of `lex` -/
+theorem scan_eq_scanT (cs : List Char) (st : ScanSt) : scan cs st = scanT (lex cs) st := by
+  fun_induction scan cs st with
+  | case1 st => rfl
+  | case2 w0 st h => simp only [lex, scanT_tokOfChar, h]
+  | case3 w0 st st' h => simp only [lex, scanT_tokOfChar, h]; rfl
+  | case4 w0 w1 rest st h ih =>
+    obtain ⟨h01, hb⟩ := h
+    subst h01
+    rcases hb with hb | hb
+    · subst hb; simp only [lex, and_self, if_true, scanT]; exact ih
+    · subst hb
+      have : ¬ ('}' = '{' ∧ '}' = '{') := by decide
+      simp only [lex, this, if_false, and_self, if_true, scanT]; exact ih
+  | case5 w0 w1 rest st h hs =>
+    have h1 : ¬ (w0 = '{' ∧ w1 = '{') := fun ⟨a, b⟩ => h ⟨a.trans b.symm, Or.inl a⟩
+    have h2 : ¬ (w0 = '}' ∧ w1 = '}') := fun ⟨a, b⟩ => h ⟨a.trans b.symm, Or.inr a⟩
+    simp only [lex, if_neg h1, if_neg h2, scanT_tokOfChar, hs]
+  | case6 w0 w1 rest st h st' hs ih =>
+    have h1 : ¬ (w0 = '{' ∧ w1 = '{') := fun ⟨a, b⟩ => h ⟨a.trans b.symm, Or.inl a⟩
+    have h2 : ¬ (w0 = '}' ∧ w1 = '}') := fun ⟨a, b⟩ => h ⟨a.trans b.symm, Or.inr a⟩
+    simp only [lex, if_neg h1, if_neg h2, scanT_tokOfChar, hs]; exact ih
+
+/-! ### literal text: the four chained replacements = token-wise unescaping -/
+
+/-- a token that can occur in literal text: an escaped brace or a non-brace character -/
+def Spec.Tok.IsLit : Tok → Prop
+  | .lbrace2 => True
+  | .rbrace2 => True
+  | .chr c => c ≠ '{' ∧ c ≠ '}'
+  | .lbrace => False
+  | .rbrace => False
+
+/-- what the lexer produces: `chr` never carries a brace -/
+def Spec.Tok.Proper : Tok → Prop
+  | .chr c => c ≠ '{' ∧ c ≠ '}'
+  | _ => True
+
+/-- the characters a run of tokens was read from -/
+def rawOf (ts : List Tok) : List Char := ts.flatMap Tok.raw
+
+theorem tokOfChar_proper (c : Char) : (tokOfChar c).Proper := by
+  unfold tokOfChar
+  by_cases h1 : c = '{'
+  · rw [if_pos h1]; trivial
+  · by_cases h2 : c = '}'
+    · rw [if_neg h1, if_pos h2]; trivial
+    · rw [if_neg h1, if_neg h2]; exact ⟨h1, h2⟩
+
+theorem lex_proper (cs : List Char) : ∀ t ∈ lex cs, t.Proper := by
+  fun_induction lex cs with
+  | case1 => intro t h; cases h
+  | case2 c => intro t h; simp only [List.mem_singleton] at h; subst h; exact tokOfChar_proper c
+  | case3 c d t h ih =>
+    intro x hx; rcases List.mem_cons.mp hx with hx | hx
+    · subst hx; trivial
+    · exact ih x hx
+  | case4 c d t h1 h2 ih =>
+    intro x hx; rcases List.mem_cons.mp hx with hx | hx
+    · subst hx; trivial
+    · exact ih x hx
+  | case5 c d t h1 h2 ih =>
+    intro x hx; rcases List.mem_cons.mp hx with hx | hx
+    · subst hx; exact tokOfChar_proper c
+    · exact ih x hx
+
+/-- the lexer loses nothing: the tokens spell the input -/
+theorem rawOf_lex (cs : List Char) : rawOf (lex cs) = cs := by
+  have htc : ∀ c, (tokOfChar c).raw = [c] := by
+    intro c; unfold tokOfChar
+    by_cases h1 : c = '{'
+    · subst h1; rfl
+    · by_cases h2 : c = '}'
+      · subst h2; rfl
+      · rw [if_neg h1, if_neg h2]; rfl
+  fun_induction lex cs with
+  | case1 => rfl
+  | case2 c => simp [rawOf, htc]
+  | case3 c d t h ih =>
+    obtain ⟨rfl, rfl⟩ := h
+    simp only [rawOf, List.flatMap_cons] at ih ⊢; rw [ih]; rfl
+  | case4 c d t h1 h2 ih =>
+    obtain ⟨rfl, rfl⟩ := h2
+    simp only [rawOf, List.flatMap_cons] at ih ⊢; rw [ih]; rfl
+  | case5 c d t h1 h2 ih =>
+    simp only [rawOf, List.flatMap_cons, htc] at ih ⊢; rw [ih]; rfl
+
+theorem replace2_cons_ne (a b r x : Char) (l : List Char) (h : x ≠ a) :
+    replace2 a b r (x :: l) = x :: replace2 a b r l := by
+  cases l with
+  | nil => simp [replace2]
+  | cons y t =>
+    have : ¬ (x = a ∧ y = b) := fun hh => h hh.1
+    simp only [replace2, if_neg this]
+
+theorem replace2_eq_substEscape (e r : Char) (l : List Char) :
+    replace2 '\\' e r l = substEscape e r l := by
+  fun_induction replace2 '\\' e r l with
+  | case1 => rfl
+  | case2 x => rfl
+  | case3 x y t h ih => simp only [substEscape, if_pos h, ih]
+  | case4 x y t h ih => simp only [substEscape, if_neg h, ih]
+
+/-- after the first replacement (`{{` → `{`) -/
+def Spec.Tok.raw1 : Tok → List Char
+  | .lbrace2 => ['{']
+  | t => t.raw
+
+theorem replace_lbrace2 (ts : List Tok) (h : ∀ t ∈ ts, t.IsLit) :
+    replace2 '{' '{' '{' (rawOf ts) = ts.flatMap Tok.raw1 := by
+  induction ts with
+  | nil => rfl
+  | cons t r ih =>
+    have ih' := ih (fun x hx => h x (List.mem_cons_of_mem _ hx))
+    have ht := h t List.mem_cons_self
+    simp only [rawOf, List.flatMap_cons] at ih' ⊢
+    cases t with
+    | lbrace2 => simp only [Tok.raw, Tok.raw1, List.cons_append, List.nil_append, replace2, and_self,
+        if_true, ih']
+    | rbrace2 =>
+      simp only [Tok.raw, Tok.raw1, List.cons_append, List.nil_append]
+      rw [replace2_cons_ne _ _ _ _ _ (by decide), replace2_cons_ne _ _ _ _ _ (by decide), ih']
+    | chr c =>
+      simp only [Tok.raw, Tok.raw1, List.cons_append, List.nil_append]
+      rw [replace2_cons_ne _ _ _ _ _ ht.1, ih']
+    | lbrace => exact absurd ht id
+    | rbrace => exact absurd ht id
+
+theorem replace_rbrace2 (ts : List Tok) (h : ∀ t ∈ ts, t.IsLit) :
+    replace2 '}' '}' '}' (ts.flatMap Tok.raw1) = ts.map Tok.literal := by
+  induction ts with
+  | nil => rfl
+  | cons t r ih =>
+    have ih' := ih (fun x hx => h x (List.mem_cons_of_mem _ hx))
+    have ht := h t List.mem_cons_self
+    simp only [List.flatMap_cons, List.map_cons]
+    cases t with
+    | lbrace2 =>
+      simp only [Tok.raw1, Tok.literal, List.cons_append, List.nil_append]
+      rw [replace2_cons_ne _ _ _ _ _ (by decide), ih']
+    | rbrace2 =>
+      simp only [Tok.raw, Tok.raw1, Tok.literal, List.cons_append, List.nil_append, replace2,
+        and_self, if_true, ih']
+    | chr c =>
+      simp only [Tok.raw, Tok.raw1, Tok.literal, List.cons_append, List.nil_append]
+      rw [replace2_cons_ne _ _ _ _ _ ht.2, ih']
+    | lbrace => exact absurd ht id
+    | rbrace => exact absurd ht id
+
+/-- **C18 (rendering).**  On literal text as the scanner collects it (escaped braces and
+    non-brace characters: every brace run has even length) the four chained `str::replace`
+    calls equal the token-wise unescaping of the specification. -/
+theorem sequentialReplace_eq_unescape (ts : List Tok) (h : ∀ t ∈ ts, t.IsLit) :
+    unescapeFiller (rawOf ts) = unescapeLiteral ts := by
+  unfold unescapeFiller unescapeLiteral
+  rw [replace_lbrace2 ts h, replace_rbrace2 ts h, replace2_eq_substEscape, replace2_eq_substEscape]
+
+/-! ### the token-driven scanner against the token parser -/
+
+theorem rawOf_eq_nil (lit : List Tok) : rawOf lit = [] ↔ lit = [] := by
+  cases lit with
+  | nil => simp [rawOf]
+  | cons t r => cases t <;> simp [rawOf, Tok.raw]
+
+theorem rawOf_append (a b : List Tok) : rawOf (a ++ b) = rawOf a ++ rawOf b := by
+  simp [rawOf]
+
+theorem isLit_append (lit : List Tok) (t : Tok) (hl : ∀ x ∈ lit, x.IsLit) (ht : t.IsLit) :
+    ∀ x ∈ lit ++ [t], x.IsLit := by
+  intro x hx
+  rcases List.mem_append.mp hx with hx | hx
+  · exact hl x hx
+  · simp only [List.mem_singleton] at hx; subst hx; exact ht
+
+theorem pushFiller_lit (lit : List Tok) (hl : ∀ t ∈ lit, t.IsLit) (ins : Bool) (acc : List BoF) :
+    (ScanSt.pushFiller { inside := ins, part := (rawOf lit).reverse, bof := acc }).reverse =
+      acc.reverse ++ fillerOf lit := by
+  unfold ScanSt.pushFiller fillerOf
+  by_cases h : lit = []
+  · subst h; simp [rawOf]
+  · have hr : ¬ rawOf lit = [] := fun hh => h ((rawOf_eq_nil lit).mp hh)
+    simp only [List.isEmpty_reverse, List.isEmpty_iff, hr, if_false, h, List.reverse_reverse,
+      List.reverse_cons, sequentialReplace_eq_unescape lit hl]
+
+theorem scanT_sim (toks : List Tok) (hp : ∀ t ∈ toks, t.Proper) :
+    (∀ lit acc, (∀ t ∈ lit, t.IsLit) →
+      scanT toks { inside := false, part := (rawOf lit).reverse, bof := acc } =
+        (parseOutside lit toks).map (acc.reverse ++ ·)) ∧
+    (∀ body acc,
+      scanT toks { inside := true, part := body.reverse, bof := acc } =
+        (parseBody body toks).map (acc.reverse ++ ·)) := by
+  induction toks with
+  | nil =>
+    constructor
+    · intro lit acc hl
+      simp only [scanT, scanEnd, parseOutside, Bool.false_eq_true, if_false, Option.map_some,
+        pushFiller_lit lit hl]
+    · intro body acc
+      simp [scanT, scanEnd, parseBody]
+  | cons tok t ih =>
+    have hp' : ∀ x ∈ t, x.Proper := fun x hx => hp x (List.mem_cons_of_mem _ hx)
+    have htok := hp tok List.mem_cons_self
+    obtain ⟨ihO, ihB⟩ := ih hp'
+    constructor
+    · intro lit acc hl
+      cases tok with
+      | lbrace2 =>
+        have := ihO (lit ++ [.lbrace2]) acc (isLit_append lit .lbrace2 hl trivial)
+        simp only [rawOf_append, List.reverse_append] at this
+        simp only [scanT, parseOutside]
+        exact this
+      | rbrace2 =>
+        have := ihO (lit ++ [.rbrace2]) acc (isLit_append lit .rbrace2 hl trivial)
+        simp only [rawOf_append, List.reverse_append] at this
+        simp only [scanT, parseOutside]
+        exact this
+      | chr c =>
+        have hc : c ≠ '{' ∧ c ≠ '}' := htok
+        have := ihO (lit ++ [.chr c]) acc (isLit_append lit (.chr c) hl hc)
+        simp only [rawOf_append, List.reverse_append] at this
+        simp only [scanT, parseOutside, scanStep, hc.1, hc.2, false_and, if_false]
+        exact this
+      | rbrace =>
+        simp [scanT, parseOutside, scanStep]
+      | lbrace =>
+        have hne : ¬ ('{' = '}') := by decide
+        simp only [scanT, parseOutside, scanStep, hne, false_and, if_false, if_true,
+          Bool.false_eq_true]
+        have := ihB [] (ScanSt.pushFiller { inside := false, part := (rawOf lit).reverse, bof := acc })
+        simp only [List.reverse_nil] at this
+        rw [this, pushFiller_lit lit hl, Option.map_map]
+        congr 1; funext r; simp
+    · intro body acc
+      cases tok with
+      | lbrace2 =>
+        have := ihB (body ++ ['{', '{']) acc
+        simp only [List.reverse_append] at this
+        simp only [scanT, parseBody]
+        exact this
+      | rbrace2 =>
+        have := ihB (body ++ ['}', '}']) acc
+        simp only [List.reverse_append] at this
+        simp only [scanT, parseBody]
+        exact this
+      | chr c =>
+        have hc : c ≠ '{' ∧ c ≠ '}' := htok
+        have := ihB (body ++ [c]) acc
+        simp only [List.reverse_append] at this
+        simp only [scanT, parseBody, scanStep, hc.1, hc.2, false_and, if_false]
+        exact this
+      | lbrace =>
+        simp [scanT, parseBody, scanStep]
+      | rbrace =>
+        have hne : ¬ ('}' = '{') := by decide
+        simp only [scanT, parseBody, scanStep, hne, Bool.not_true, Bool.false_eq_true, and_false,
+          if_false, if_true, List.reverse_reverse, specCommaList_eq]
+        cases parseAll (splitOnChar ',' body) with
+        | none => simp
+        | some bs =>
+          have := ihO [] ((bs.map BoF.bound).reverse ++ acc) (fun x hx => by cases hx)
+          simp only [rawOf, List.flatMap_nil, List.reverse_nil] at this
+          simp only [Option.map_some, this]
+          cases parseOutside [] t <;> simp
+
+theorem scan_eq_parseToks (s : List Char) :
+    scan s { inside := false, part := [], bof := [] } = parseToks (lex s) := by
+  rw [scan_eq_scanT]
+  have := (scanT_sim (lex s) (lex_proper s)).1 [] [] (fun x hx => by cases hx)
+  simp only [rawOf, List.flatMap_nil, List.reverse_nil, List.nil_append] at this
+  rw [this]
+  unfold parseToks
+  cases parseOutside [] (lex s) <;> rfl
+
+theorem parseBoundsList_eq (s : List Char) (hne : s ≠ []) : parseBoundsList s = specItems s := by
+  unfold parseBoundsList specItems
+  have he : s.isEmpty = false := by
+    cases s with
+    | nil => exact absurd rfl hne
+    | cons _ _ => rfl
+  rw [he, hasBrace_eq]
+  simp only [Bool.false_eq_true, if_false]
+  by_cases hb : hasBrace s = true
+  · rw [if_pos hb, if_pos hb, scan_eq_parseToks]
+  · rw [if_neg hb, if_neg hb, specCommaList_eq]
+
+/-- **C18 (the language).**  For every argument string: `UserBoundsList::from_str` accepts it
+    exactly when the grammar does, and then delivers the list the grammar describes (bounds,
+    unescaped literal text, `is_last` on the last bound). -/
+theorem parse_eq_spec (s : List Char) :
+    (boundsListOfString s).toOption.map (·.list) = specParse s := by
+  unfold boundsListOfString specParse
+  rw [← all_isWhitespace_eq]
+  by_cases hw : s.all isWhitespace = true
+  · rw [if_pos hw, if_pos hw]; rfl
+  · have hne : s ≠ [] := by
+      intro h; subst h; exact hw rfl
+    rw [if_neg hw, if_neg hw, parseBoundsList_eq s hne]
+    cases specItems s with
+    | none => rfl
+    | some l =>
+      simp only [boundsOnly_isEmpty]
+      by_cases hb : hasBound l = true
+      · simp [hb, fromVec, markLast_eq, Res.toOption]
+      · simp [hb, Res.toOption]
+
+/-- acceptance alone -/
+theorem accepted_iff_spec (s : List Char) :
+    (boundsListOfString s).isOk = (specParse s).isSome := by
+  rw [← parse_eq_spec]
+  cases boundsListOfString s <;> rfl
+
 end Tuc
